@@ -5,6 +5,7 @@ use std::panic;
 
 mod color;
 mod project;
+mod qtname;
 mod tirdump;
 mod typemap;
 mod uigen;
@@ -18,6 +19,7 @@ fn main() {
         "tir" => tirdump::run,
         "uigen" => uigen::run,
         "project" => project::run,
+        "qtname" => qtname::run,
         _ => {
             eprintln!("usage: vh <color|...> < cases.jsonl");
             std::process::exit(2);
